@@ -253,8 +253,6 @@ pub(super) fn validates(
                 }
             }).collect_vec();
 
-        // Stores named validates in order
-        let mut out: Vec<(TokenStream, String)> = Vec::new();
         // Map requires to vec of strings
         let relevant_requires = relevant_field_validates
             .iter()
@@ -268,22 +266,24 @@ pub(super) fn validates(
                 )
                 .unwrap_or_default()
             );
-        // Go backwards over validate calls paired with field name and what it requires
-        let iter = validates.into_iter()
+        // Validate calls paired with what they require and their field name, in declaration order
+        let mut pending = validates.into_iter()
             .zip(relevant_requires)
             .zip(field_name.iter().map(|f| f.to_string()))
-            .rev();
-        for ((validate, required), field_name) in iter {
-            let insert_index = out.iter()
-                .enumerate()
-                // find from the end
-                .rev()
-                .find(|(_, (_, name))| required.contains(name))
-                .map(|(index, _)| index + 1)
-                .unwrap_or(0);
-            out.insert(insert_index, (validate, field_name));
+            .collect::<Vec<_>>();
+        // Stable topological sort: repeatedly take the first remaining field (in declaration order) whose
+        // required fields have all been placed. Declaration order is kept when nothing is required.
+        let mut placed: Vec<String> = Vec::with_capacity(pending.len());
+        let mut out: Vec<TokenStream> = Vec::with_capacity(pending.len());
+        while !pending.is_empty() {
+            let next = pending.iter()
+                .position(|((_, required), _)| required.iter().all(|r| placed.contains(r)))
+                .expect("cycles and unknown fields in `requires` are rejected above");
+            let ((validate, _), name) = pending.remove(next);
+            placed.push(name);
+            out.push(validate);
         }
-        let validates = out.into_iter().map(|(validate, _)| validate);
+        let validates = out.into_iter();
 
         let (impl_generics, _, where_clause) = generics.split_for_impl();
         let before_validation = validate_struct_args.before_validation.map(|before_validation| quote! {
